@@ -36,7 +36,7 @@ RULE = ('Hypothesis RuleBasedStateMachine: @initialize draws a document (profile
         'give the same result in both orders (interpreter-global state).  Excerpt sweeps: for measure-structured scores '
         'with signature changes, ALL (from, to) ranges of one imported document are exported in a drawn order and back, '
         'each compared with the same excerpt of a copy imported for that call alone (splits may stay open across '
-        'barlines); then the text is imported 24 times in a row (padding imports in between, so that process-wide counters take every residue of small moduli) and every excerpt must be the same text for all copies.  '
+        'barlines); caller-owned category sets / lists go through one Exporter once per encoding (unchanged afterwards, same text as a fresh dumps); then the text is imported 24 times in a row (padding imports in between, so that process-wide counters take every residue of small moduli) and every excerpt must be the same text for all copies.  '
         'Non-trivial: >=3 distinct operations of which at least one raised or used a filter.')
 ASSUMPTIONS = ['state hidden outside Python attributes (ANTLR DFA caches) is only seen if it changes a result',
                'graph output is compared after canonical renaming of node<address> and #<node id> (process-global counters)']
@@ -61,7 +61,7 @@ catlists = st.one_of(st.lists(st.sampled_from(cats.ALL), max_size=4, unique=True
 @st.composite
 def ops(draw):
     name = draw(st.sampled_from(['dumps', 'dumps', 'dumps', 'dumps_variant', 'dumps_variant', 'dumps_variant', 'dumps_variant', 'dumps_variant',
-                                 'dumps_variant', 'export_options', 'tokens', 'unique', 'encodings', 'unique_encodings',
+                                 'dumps_variant', 'export_options', 'export_options', 'tokens', 'unique', 'encodings', 'unique_encodings',
                                  'frequencies', 'metacomments', 'metacomments', 'spine_types', 'mono', 'iter', 'count', 'first', 'spine_ids',
                                  'headers', 'voices', 'graph_file', 'graph_stdout', 'next', 'zip', 'iter_partial']))
     o = {'op': name, 'shape': draw(st.sampled_from(['list', 'set', 'tuple']))}
@@ -172,6 +172,9 @@ def apply(doc, o, state):
                     opts.token_categories = lst
                 else:
                     opts.token_categories = sel
+            elif o['shape'] == 'set':
+                # no selection: the caller says "everything" with a set of its own (TokenCategory.all() returns one)
+                opts.token_categories = set(TC.all())
             if o.get('reset'):
                 if 'from_measure' not in kw:
                     opts.from_measure = None
@@ -526,6 +529,31 @@ def check_sweep(case):
         if got != fresh[(a, b)]:
             raise Bad('excerpt-depends-on-history', f'dumps(from_measure={a}, to_measure={b}, {case["enc"]}) as call {n} of the sweep '
                       f'{order + order[::-1]} differs from the same call on a freshly imported copy\n--- fresh\n{fresh[(a, b)]}\n--- in the sweep\n{got}\n{text}')
+    # caller-owned category collections (a set, a list) handed to the Exporter once per encoding, in a drawn order: they come
+    # back unchanged, and the extended export made with them afterwards is the one a fresh call gives
+    for mk in (set, list):
+        for cats_ in (TC.all(), TC.valid(include=[TC.CORE, TC.BARLINES, TC.SIGNATURES, TC.STRUCTURAL]),
+                      TC.valid(include=kp.BEKERN_CATEGORIES)):  # (ExportOptions.token_categories holds the expanded selection)
+            mine = mk(cats_)
+            opts_ = kp.ExportOptions()
+            opts_.token_categories = mine
+            ex_ = kp.Exporter()
+            held = sorted(c_.name for c_ in mine)
+            for e_ in [ENCS[i % len(ENCS)] for i in case['perm'][:len(ENCS)]] + ['ekern']:
+                opts_.kern_type = K.ENCODINGS[e_]
+                try:
+                    got_ = ex_.export_string(kd, opts_)
+                except Exception as ex_c:  # noqa  (agnostic encodings need supported clefs everywhere)
+                    got_ = ['EXC', type(ex_c).__name__]
+                n += 1
+                if sorted(c_.name for c_ in mine) != held or opts_.token_categories is not mine:
+                    raise Bad('argument-mutated', f'Exporter.export_string({e_}) changed the category {mk.__name__} owned by the caller: {held} -> {sorted(c_.name for c_ in mine)}')
+                try:
+                    want_ = kp.dumps(kp.loads(text)[0], encoding=K.ENCODINGS[e_], include=list(cats_))
+                except Exception as ex_c:  # noqa
+                    want_ = ['EXC', type(ex_c).__name__]
+                if got_ != want_:
+                    raise Bad('result-differs-from-fresh', f'{e_} export with a caller-owned category {mk.__name__} that was used for other encodings before differs from a fresh dumps')
     # two imports of the same text are indistinguishable: NCOPIES imports in a row (each one moves every process-wide
     # counter on - node ids, object addresses), every excerpt 'from measure a to the end' must be the same text in all
     # (every second import is preceded by the import of a three-node padding score, so that the counters advance by N and
